@@ -2259,12 +2259,31 @@ class Engine:
                             self.oblige(sn, "inv-keep@loop%d[%s:new]" % (k, label), cond.body(s3, n_h), kind="inv")
                         else:
                             self.oblige(s3, "inv-keep@loop%d[%s]" % (k, label), cond, kind="inv")
-                    self.check_shapes(h, s3, names, k)
+                    self.check_shapes(head, s3, names - self.dead_at_head(node), k)
                 elif bo.kind == "break":
                     outs.append(Out("next", bo.st))
                 else:
                     outs.append(bo)
         return outs
+
+    def dead_at_head(self, node):
+        """variables whose value at the loop head is never read: the for-target, and names that the body's top-level statements assign
+        (plain `x = e` with x not in e) before any statement mentions them"""
+        dead = set()
+        if isinstance(node, ast.For):
+            dead |= {n.id for n in ast.walk(node.target) if isinstance(n, ast.Name)}
+        seen = set()
+        for stmt in node.body:
+            mentioned = {n.id for n in ast.walk(stmt) if isinstance(n, ast.Name)}
+            if isinstance(stmt, ast.Assign) and len(stmt.targets) == 1 and isinstance(stmt.targets[0], ast.Name):
+                x = stmt.targets[0].id
+                used = {n.id for n in ast.walk(stmt.value) if isinstance(n, ast.Name)}
+                if x not in seen and x not in used:
+                    dead.add(x)
+            seen |= mentioned
+        if isinstance(node, ast.While):
+            dead -= {n.id for n in ast.walk(node.test) if isinstance(n, ast.Name)}
+        return dead
 
     def check_shapes(self, h, s3, names, k):
         for n in names:
